@@ -10,7 +10,7 @@ LEVEL = 'exploration'
 BUDGET = {'quick': 150, 'thorough': 1500}
 CHUNK = 4
 RULE = ('Cases: an ancestor of 1..3 contigs; substitution sites more than (k-1)/2 apart and at least (k-1)/2 from contig '
-        'ends (a share of sites at exactly the minimum distances); 2..10 samples, 2..4 alleles per site; contigs written '
+        'ends (a share of sites at exactly the minimum distances, and contigs of exactly k or k+1 bases whose only site sits at the centre); 2..10 samples, 2..4 alleles per site; contigs written '
         'in random order and orientation per sample.  The generator checks admissibility (every canonical split k-mer over '
         'the union of all sample sequences occurs at one locus, none self-complementary).  `ska align --min-freq 1` must '
         'give exactly the planted columns (each up to whole-column complement), equal lengths, names in input order.  '
@@ -18,7 +18,7 @@ RULE = ('Cases: an ancestor of 1..3 contigs; substitution sites more than (k-1)/
         'one planted site; distinct = distinct (k, sample sequences).')
 ASSUMPTIONS = ['the planted truth is the oracle; no model of ska is involved',
                'uniqueness is required over the union of samples, see DESIGN.md section 8']
-REQUIRED = {t: ['route:skf', 'route:fasta', 'sites_at_min_gap', 'sites_at_min_end', 'multi_contig'] for t in ('quick', 'thorough')}
+REQUIRED = {t: ['route:skf', 'route:fasta', 'sites_at_min_gap', 'sites_at_min_end', 'multi_contig', 'contigs_of_length_k_or_k+1'] for t in ('quick', 'thorough')}
 
 
 def builds(tier):
@@ -64,12 +64,18 @@ def gen(rng, k):
         if k == 5:
             ncont, maxlen = 1, 14       # unique split 5-mers are scarce: 256 arm pairs
         contigs = [G.rseq(rng, rng.randint(k + 2, maxlen)) for _ in range(ncont)]
+        if k > 5 and rng.random() < 0.3:
+            # a contig of exactly k (or k+1) bases: its centre is exactly (k-1)/2 from both ends
+            contigs.insert(rng.randrange(len(contigs) + 1), G.rseq(rng, k + rng.choice([0, 0, 1])))
         samples = [[list(c) for c in contigs] for _ in range(ns)]
         truth = []
         stats = {'min_gap': 0, 'min_end': 0}
         for ci, c in enumerate(contigs):
             first = rng.random() < 0.3
             p = h if first else h + rng.randint(0, h)
+            if len(c) <= k + 1:
+                first, p = True, h
+                stats['short_contig'] = stats.get('short_contig', 0) + 1
             if first:
                 stats['min_end'] += 1
             while p <= len(c) - 1 - h:
@@ -156,6 +162,7 @@ def run_case(desc, ctx):
     res.count('planted_sites', len(truth))
     res.count('sites_at_min_gap', stats['min_gap'])
     res.count('sites_at_min_end', stats['min_end'])
+    res.count('contigs_of_length_k_or_k+1', stats.get('short_contig', 0))
     if len(contigs) > 1:
         res.count('multi_contig')
     res.nontrivial.append(fingerprint([k, ss]))
